@@ -132,7 +132,7 @@ def _run(parser, cache, steps, mutate, shadow_step=-1):
             names = {k: v for k, v in names.items() if k != 'len'}
         if evict and cache is not None:
             cache.clear()
-        t = TEXTS[ti]
+        t = TEXTS[ti] if isinstance(ti, int) else ti
         try:
             if use_eval:
                 v = parser.eval(t, names, max_ops_evaluated=100)
@@ -153,6 +153,20 @@ with hlib.native(unwalled=True):
     _CACHE = Cache()
     _CACHED = SqParser(parse_cache=_CACHE)
     _PLAIN = SqParser()
+    _INITIAL = dict(_CACHE)          # whatever constructing the parser put into the host's mapping
+
+
+def _keys_are_sources():
+    """every string key present in the host's mapping is a possible source text: it parses and evaluates the same with
+    and without the cache (returns a message or None)"""
+    for k in list(_CACHE.keys()):
+        if not isinstance(k, str):
+            continue
+        a = _run(_CACHED, _CACHE, [(k, False, False), (k, True, False)], False)
+        b = _run(_PLAIN, None, [(k, False, False), (k, True, False)], False)
+        if a != b:
+            return "the cache holds the key %r; as a source text it behaves differently with the cache (%r) than without (%r)" % (k, a, b)
+    return None
 
 
 def _shadow_len(x):
@@ -192,4 +206,55 @@ def cache_sequence(t2: int, t3: int, e2: bool, e3: bool, k1: bool, k3: bool, mut
         exp = _run(_PLAIN, None, steps, mutate, sh)
         _CACHE.stores = True
     assert got == exp, "a parser with a parse cache behaves differently from one without"
+    hlib.done()
+
+
+# pairs of texts where the first call must not influence the second: near-duplicates (differences that matter) and a
+# failing text that leaves lexer state behind followed by a text sensitive to it
+PAIRS = [
+    ("%order total% + 1", "%order  total% + 1"), ("%a\tb%", "%a b%"), ("'a  b' + s", "'a b' + s"), ("x = 1 # c", "x = 1"),
+    ("s + \"a\"", "s + 'A'"), (" 1", "1"), ("%a.b%", "%a .b%"), ("[1,2]", "[1, 2]"), ("a\n-1", "a -1"), ("a;b", "a\nb"),
+    ("push(x, [1, 2", "x = 5\n-2"), ("f(1,\n(2", "y = a\n[1]\n(y)"), ("{'k': [1,", "a\n- a"), ("x = (", "1\n2\n+3"),
+    ("a $ 1", "a\n+ 1"), ("'unterminated", "a\n'b'"), ("for", "a\nfor_ = 1"), ("(((", ")"), ("a +", "a +"), ("1 +", "1 + 1"),
+    ("__ast_format__", "__version__"), ("", " "), ("\n", ""), ("#", "# \n"),
+]
+
+
+def pair_sequence(pi: int, swap: bool, warm: int, stores: bool, e1: bool, e2: bool, repeat: bool) -> None:
+    """
+    pre: 0 <= pi < 24 and 0 <= warm <= 2
+    post: True
+    """
+    hlib.enter(locals())
+    pi, warm = hlib.concrete(pi, 0, 23), hlib.concrete(warm, 0, 2)
+    first, second = PAIRS[pi][::-1] if swap else PAIRS[pi]
+    e1, e2, repeat = (True if e1 else False), (True if e2 else False), (True if repeat else False)
+    steps = [(first, e1, False), (second, e2, False)] + ([(first, e1, False), (second, not e2, False)] if repeat else [])
+    with hlib.native():
+        _CACHE.stores = True
+        _CACHE.clear()
+        _CACHE.update(_INITIAL)          # the host's mapping as the constructor left it
+        for t in ([second] if warm == 1 else [first, second] if warm == 2 else []):          # pre-warmed entries
+            try:
+                _CACHED.parse(t)
+            except Exception:
+                pass
+        _CACHE.stores = True if stores else False
+        names0 = {'a': 1, 's': 'q', '%order total%': 1, '%order  total%': 2, '%a b%': 3, '%a\tb%': 4, '%a.b%': 5, '%a .b%': 6, 'x': [0]}
+        got, exp = [], []
+        for (t, ev, _) in steps:
+            for parser, sink in ((_CACHED, got), (_PLAIN, exp)):
+                nm = dict(names0)
+                try:
+                    if ev:
+                        sink.append(('ok', repr(parser.eval(t, nm, max_ops_evaluated=100)), sorted(nm)))
+                    else:
+                        sink.append(('ok', repr(parser.parse(t))))
+                except Exception as e:
+                    sink.append(('err', type(e).__name__, str(e)))
+        _CACHE.stores = True
+        bad_key = _keys_are_sources()
+        _CACHE.clear()
+    assert got == exp, "after %r, %r behaves differently with a parse cache (%r) than without (%r)" % (first, second, got, exp)
+    assert bad_key is None, bad_key
     hlib.done()
